@@ -643,6 +643,10 @@ fn static_keys(r: &mut Report) {
     key_case("unit-variant enum", vec![KEnum::First, KEnum::Second], r);
     key_case("i32", vec![-1i32, 0, 1], r);
     key_case("DoubleKey", vec![DoubleKey(0.1), DoubleKey(f64::NEG_INFINITY)], r);
+    // both zeros and NaNs of different sign / payload offered as keys of one map: whatever the
+    // typed map keeps apart, the carrier keeps apart
+    key_case("DoubleKey(zeros+nans)", vec![DoubleKey(0.0), DoubleKey(-0.0), DoubleKey(1.0), DoubleKey(f64::NAN), DoubleKey(-f64::NAN), DoubleKey(f64::from_bits(0x7ff8_0000_0000_0001))], r);
+    key_case("newtype(DoubleKey)(zeros)", vec![KDbl(DoubleKey(-0.0)), KDbl(DoubleKey(0.0))], r);
     key_case("option-free tuple struct key is a newtype", vec![KI64(5)], r);
 }
 
